@@ -43,6 +43,54 @@ def string_literal(c):
     c.replay("code", code=REPLAY_STRING)
 
 
+@contract("liquid.builtin.expressions.path:Path.__str__", prop="C04")
+def path_str(c):
+    """a string segment is printed `.name` only when it is a property name, otherwise bracketed
+    and quoted with a quote that does not occur in it, without escapes -- root segment included"""
+    root, seg = c.str("root_segment"), c.str("segment")
+    sq, dq = z3.StringVal("'"), z3.StringVal('"')
+    for v in (root, seg):
+        c.requires(z3.Not(z3.And(z3.Contains(v.t, sq), z3.Contains(v.t, dq))), "a parsed quoted segment never contains both kinds of quote")
+    idx = c.int("index_segment")
+    self = c.obj("liquid.builtin.expressions.path:Path", "path", path=c.st.alloc(HList(items=[root, seg, idx])), token=NONE)
+    c.call(self_val=self)
+    word = z3.Function("re_fullmatch$RE_PROPERTY", S, B)
+
+    def quoted(v):
+        q = z3.If(z3.Contains(v, sq), dq, sq)
+        return z3.Concat(z3.StringVal("["), q, v, q, z3.StringVal("]"))
+
+    def post(r):
+        res = r.value.t
+        want_root = z3.If(word(root.t), root.t, quoted(root.t))
+        want_seg = z3.If(word(seg.t), z3.Concat(z3.StringVal("."), seg.t), quoted(seg.t))
+        n = idx.t
+        want_idx = z3.Concat(z3.StringVal("["), z3.If(n < 0, z3.Concat(z3.StringVal("-"), z3.IntToStr(-n)), z3.IntToStr(n)), z3.StringVal("]"))
+        return res == z3.Concat(want_root, want_seg, want_idx)
+    c.ensures("segments-print-as-property-or-quoted-bracket-without-escapes", post)
+    c.raises()
+    c.assume_note("RE_PROPERTY.fullmatch(s) is an uninterpreted predicate 'is a property name'; that property names lex as one WORD token is checked by the bounded round trip")
+    c.replay("code", code=REPLAY_PATH)
+
+
+REPLAY_PATH = r'''
+def run(m):
+    from liquid import Environment
+    env = Environment()
+    d = {"back\\slash": 1, "a b": 2}
+    bad = []
+    for src in ("{{ site['back\\slash'] }}", "{{ ['a b'] }}", "{{ site['a b'] }}"):
+        try:
+            t = env.from_string(src); t2 = env.from_string(str(t))
+            if t.render(site=d, **{"a b": 3}) != t2.render(site=d, **{"a b": 3}) or str(t2) != str(t):
+                bad.append((src, str(t)))
+        except Exception as e:
+            bad.append((src, type(e).__name__))
+    return {"violated": bool(bad), "observed": bad}
+'''
+
+
+
 # ---------------------------------------------------------------- logical printer vs the parser
 
 
@@ -272,8 +320,39 @@ def tag_printers():
     return obs
 
 
+@structural("C04", "expression-printers")
+def expression_printers():
+    """filtered / ternary / loop / argument expressions: every field `evaluate` uses is printed,
+    and each optional part is printed under its own presence test only (the parser accepts
+    them independently: `x if c || f` has tail filters and no alternative)"""
+    obs = []
+    n = 0
+    for m in ("liquid.builtin.expressions.filtered", "liquid.builtin.expressions.loop", "liquid.builtin.expressions.arguments"):
+        mod = load.get_module(m)
+        for cname, cnode in mod.classes.items():
+            fn = load._last_def(cnode.body, "__str__")
+            evs = [x for x in cnode.body if isinstance(x, (ast.FunctionDef, ast.AsyncFunctionDef)) and x.name in ("evaluate", "evaluate_async", "evaluate_args", "evaluate_args_async")]
+            if fn is None or not evs:
+                continue
+            n += 1
+            used = set()
+            for e in evs:
+                used |= self_fields(e, ("evaluate", "evaluate_async"))
+            printed = {a.attr for a in ast.walk(fn) if isinstance(a, ast.Attribute) and isinstance(a.value, ast.Name) and a.value.id == "self"}
+            obs.append(flow.ob(f"{cname}.__str__:prints-every-field-evaluate-uses", used <= printed, f"evaluate uses {sorted(used)}, printer mentions {sorted(printed)}", replay_schema="code", replay_extra={"code": REPLAY_TAGS}))
+            pm = flow.parents(fn)
+            nested = []
+            for iff in [x for x in ast.walk(fn) if isinstance(x, ast.If)]:
+                outer = [o for o in flow.enclosing(pm, iff, (ast.If,)) if o is not iff]
+                if outer:
+                    nested.append(f"if {flow.dotted(iff.test)[:30]} inside if {flow.dotted(outer[0].test)[:30]}")
+            obs.append(flow.ob(f"{cname}.__str__:optional-parts-are-printed-under-their-own-presence-test", not nested, str(nested), replay_schema="code", replay_extra={"code": REPLAY_TAGS}))
+    obs.append(flow.ob("expression-printers-found", n >= 4, f"{n}"))
+    return obs
+
+
 not_covered("C04", "that the printed text lexes back into the same tokens (regular-expression lexers are not modelled): bounded round-trip check",
-            "Path.__str__ and the filter/argument printers (bounded round-trip check only)", "non-standard (extra) tags",
+            "the filter/argument printers (bounded round-trip check only)", "non-standard (extra) tags",
             "string literals containing both quote characters cannot come from a parsed template (excluded by precondition)")
 
 bounded("C04", "bounded/C04.py")
